@@ -60,18 +60,18 @@
     that name with an action).  (That an *index* equal on both sides gets no statement is part of `Abs.Idx.emit`.)
 
   * `changed_column_modified` — **the converse: a column that differs is modified with the new definition**: if a
-    column of a table present on both sides has another type on the two sides, or other options (options other than
-    COMMENT, compared up to order), `MigrationColumnUp` of the diffed record prints a MODIFY COLUMN whose definition
+    column of a table present on both sides has another type on the two sides, or other options (compared up to
+    order; COMMENT texts included), `MigrationColumnUp` of the diffed record prints a MODIFY COLUMN whose definition
     the reference engine reads as exactly the new side's column (same name, type, options up to order, no PRIMARY KEY
     flag), and `MigrationColumnDown` prints one it reads as the old side's column (Proofs/Changed: the first loop of
     `Table.Diff` tags the column `modify` and keeps the old attributes, because equal comparison keys would make the
-    reference options equal up to order — `perm_of_not_changed`, the comparison key is injective on options other than
-    COMMENT, `ckey_inj` —; the later loops keep the record up to foreign-key marks, `Table.diff_like`; the walk prints the
-    MODIFY of every `modify` record, `Table.walkCols_modify`).  COMMENT texts are compared through `String.replace`
-    (quote doubling), whose injectivity is not proved: a column that differs in a COMMENT only is outside the theorem.
+    reference options equal up to order — `perm_of_not_changed`, the comparison key is injective, `ckey_inj`: for a
+    COMMENT the key quotes the text by doubling every single quote, `doubleQuotes`, which is injective, `dqChars_inj` —;
+    the later loops keep the record up to foreign-key marks, `Table.diff_like`; the walk prints the MODIFY of every
+    `modify` record, `Table.walkCols_modify`).
 
   * `columns_on_reference_engine` — **the column clause on the reference engine itself**: for two scripts the engine
-    accepts (default field order, column definitions without inline PRIMARY KEY and without COMMENT options) and a
+    accepts (default field order, column definitions without inline PRIMARY KEY) and a
     table present on both sides whose common columns keep their relative order, the statements `MigrationColumnUp`
     prints for the diffed record — ADD COLUMN with its position, DROP COLUMN, MODIFY COLUMN —, executed by
     `Spec.execAll` on the *old schema* (referential checks aside), are well-formed at every step; afterwards the table's
@@ -94,7 +94,7 @@
     columns of its table in every reachable schema, `Spec.execAll_pkin`, so no key column is dropped.)
 
   * `schema_on_reference_engine` — **the whole up migration on the reference engine**: for two scripts without foreign
-    keys, inline PRIMARY KEY and COMMENT options, whose common tables keep the relative order of their common columns
+    keys and inline PRIMARY KEY, whose common tables keep the relative order of their common columns
     and their primary key and are outside the recorded region `index-redefined-old-columns-dropped`, and without a
     table named like the bookkeeping table: `Diff` and `MigrationUp` return, and the printed migration — CREATE TABLE
     with its indexes and key for a table only the new side has (`created_table_spec`), the column and index statements
@@ -118,7 +118,7 @@
     have gets neither —, which turns the old set of tables into the new one (Proofs/TablesClause: what the two table
     loops of `Migration.Diff` leave, and the table-level content of each printer).
 
-  Missing for `Statement_partial`: a changed primary key (recorded finding `pk-changed`), COMMENT options, foreign keys on
+  Missing for `Statement_partial`: a changed primary key (recorded finding `pk-changed`), foreign keys on
   `Spec.exec` (proved on their abstract machine; their statement order is the recorded finding `referential-ordering`),
   the other dialects.  Those parts are covered by the correspondence run and
   by the executable predicate `Spec.c01` evaluated on the implementation's printed migration on every check.
@@ -245,8 +245,7 @@ theorem changed_column_modified (g : Globals) (hg : g.dialect = .mysql) (rc : Bo
     (d : Migration) (hd : loadAndDiff g old new = .ok d)
     (t : String) (tbO tbN : TableSpec) (hfo : dbO.find t = some tbO) (hfn : dbN.find t = some tbN)
     (cN cO : ColSpec) (hcN : cN ∈ tbN.cols) (hcO : cO ∈ tbO.cols) (hname : cO.name = cN.name)
-    (hchg : cO.typ ≠ cN.typ ∨
-      (¬ cO.opts.Perm cN.opts ∧ (∀ k ∈ cO.opts, k.noComment = true) ∧ (∀ k ∈ cN.opts, k.noComment = true))) :
+    (hchg : cO.typ ≠ cN.typ ∨ ¬ cO.opts.Perm cN.opts) :
     ∃ td ∈ d.tables, td.name = t ∧ td.action = .none ∧
       (∃ cd, Stmt.modifyColumn t cd ∈ (Table.walkCols g t true [] td.cols).1 ∧
         (colOf cd).2 = false ∧ (colOf cd).1.name = cN.name ∧ (colOf cd).1.typ = cN.typ ∧ (colOf cd).1.opts.Perm cN.opts) ∧
@@ -281,14 +280,12 @@ theorem columns_on_reference_engine (g : Globals) (hg : g.dialect = .mysql) (hio
     (heo : execAll rc [] old = some dbO) (hen : execAll rc [] new = some dbN)
     (d : Migration) (hd : loadAndDiff g old new = .ok d)
     (t : String) (tbO tbN : TableSpec) (hfo : dbO.find t = some tbO) (hfn : dbN.find t = some tbN)
-    (hc : Abs.OrderCompatible tbN.colNames tbO.colNames) (hne : ∀ n ∈ tbN.colNames ++ tbO.colNames, n ≠ "")
-    (hncO : ∀ c ∈ tbO.cols, ∀ k ∈ c.opts, k.noComment = true)
-    (hncN : ∀ c ∈ tbN.cols, ∀ k ∈ c.opts, k.noComment = true) :
+    (hc : Abs.OrderCompatible tbN.colNames tbO.colNames) (hne : ∀ n ∈ tbN.colNames ++ tbO.colNames, n ≠ "") :
     ∃ td ∈ d.tables, td.name = t ∧ td.migrationColumnUp g = .ok (Table.walkCols g t true [] td.cols) ∧
       ∃ db' tb', execAll false dbO (Table.walkCols g t true [] td.cols).1 = some db' ∧
         db'.find t = some tb' ∧ colsEquiv tb'.cols tbN.cols = true ∧
         (∀ u, u ≠ t → db'.find u = dbO.find u) ∧ db'.map (·.name) = dbO.map (·.name) :=
-  columns_spec_up_db g hg hio rc old new dbO dbN ho hn hpo hpn heo hen d hd t tbO tbN hfo hfn hc hne hncO hncN
+  columns_spec_up_db g hg hio rc old new dbO dbN ho hn hpo hpn heo hen d hd t tbO tbN hfo hfn hc hne
 
 -- non-vacuity of `columns_on_reference_engine`: a second table that must stay as it is; in `t` column `z` is added in
 -- front, `a` keeps its options in another order, `b` is retyped and loses NOT NULL, `x` is dropped, `c` is added last
@@ -317,8 +314,6 @@ theorem table_on_reference_engine (g : Globals) (hg : g.dialect = .mysql) (hio :
     (d : Migration) (hd : loadAndDiff g old new = .ok d)
     (t : String) (tbO tbN : TableSpec) (hfo : dbO.find t = some tbO) (hfn : dbN.find t = some tbN)
     (hc : Abs.OrderCompatible tbN.colNames tbO.colNames) (hne : ∀ n ∈ tbN.colNames ++ tbO.colNames, n ≠ "")
-    (hncO : ∀ c ∈ tbO.cols, ∀ k ∈ c.opts, k.noComment = true)
-    (hncN : ∀ c ∈ tbN.cols, ∀ k ∈ c.opts, k.noComment = true)
     (hpk : tbO.pk = tbN.pk)
     (hredef : ∀ dc : List String, (∀ c ∈ dc, c ∉ tbN.colNames) →
       ∀ s ∈ tbN.idxs, ∀ o ∈ tbO.idxs, o.name = s.name → o ≠ s → ∃ c ∈ o.cols, c ∉ dc) :
@@ -327,7 +322,7 @@ theorem table_on_reference_engine (g : Globals) (hg : g.dialect = .mysql) (hio :
         ∃ db' tb', execAll false dbO (cs ++ is) = some db' ∧ db'.find t = some tb' ∧
           colsEquiv tb'.cols tbN.cols = true ∧ tb'.idxs.Perm tbN.idxs ∧ tb'.pk = tbN.pk ∧
           (∀ u, u ≠ t → db'.find u = dbO.find u) ∧ db'.map (·.name) = dbO.map (·.name) :=
-  table_spec_up g hg hio rc old new dbO dbN ho hn hpo hpn heo hen d hd t tbO tbN hfo hfn hc hne hncO hncN hpk hredef
+  table_spec_up g hg hio rc old new dbO dbN ho hn hpo hpn heo hen d hd t tbO tbN hfo hfn hc hne hpk hredef
 
 /-- table clause of C01 from scripts to printed statements (MySQL reader model) -/
 theorem tables_from_scripts (g : Globals) (hg : g.dialect = .mysql) (rc : Bool) (old new : List Stmt) (dbO dbN : DB)
@@ -507,13 +502,12 @@ theorem schema_on_reference_engine (g : Globals) (hg : g.dialect = .mysql) (hio 
     (heo : execAll rc [] old = some dbO) (hen : execAll rc [] new = some dbN)
     (hdef : ∀ tb ∈ dbO ++ dbN, tb.name ≠ Migration.defaultMigrationTable)
     (hnofk : ∀ tb ∈ dbO ++ dbN, tb.fks = [])
-    (hncm : ∀ tb ∈ dbO ++ dbN, ∀ c ∈ tb.cols, ∀ k ∈ c.opts, k.noComment = true)
     (hboth : ∀ tbO ∈ dbO, ∀ tbN ∈ dbN, tbO.name = tbN.name →
       Abs.OrderCompatible tbN.colNames tbO.colNames ∧ (∀ n ∈ tbN.colNames ++ tbO.colNames, n ≠ "") ∧ tbO.pk = tbN.pk ∧
       (∀ dc : List String, (∀ c ∈ dc, c ∉ tbN.colNames) →
         ∀ s ∈ tbN.idxs, ∀ o ∈ tbO.idxs, o.name = s.name → o ≠ s → ∃ c ∈ o.cols, c ∉ dc)) :
     ∃ up, modelUp g old new = .ok up ∧ c01 g.ignoreOrder dbO dbN up false = .ok () := by
-  obtain ⟨d, out, hd, hU, ⟨db', he, heq⟩, hj⟩ := schema_spec_up g hg hio rc old new dbO dbN ho hn hpo hpn heo hen hdef hnofk hncm hboth
+  obtain ⟨d, out, hd, hU, ⟨db', he, heq⟩, hj⟩ := schema_spec_up g hg hio rc old new dbO dbN ho hn hpo hpn heo hen hdef hnofk hboth
   refine ⟨out.flatten, ?_, ?_⟩
   · unfold modelUp
     simp only [hd, hU, bind, Except.bind, pure, Except.pure]
@@ -564,18 +558,29 @@ theorem schema_on_reference_engine_either_setting (g : Globals) (hg : g.dialect 
     (heo : execAll rc [] old = some dbO) (hen : execAll rc [] new = some dbN)
     (hdef : ∀ tb ∈ dbO ++ dbN, tb.name ≠ Migration.defaultMigrationTable)
     (hnofk : ∀ tb ∈ dbO ++ dbN, tb.fks = [])
-    (hncm : ∀ tb ∈ dbO ++ dbN, ∀ c ∈ tb.cols, ∀ k ∈ c.opts, k.noComment = true)
     (hboth : ∀ tbO ∈ dbO, ∀ tbN ∈ dbN, tbO.name = tbN.name →
       Abs.OrderCompatible tbN.colNames tbO.colNames ∧ (∀ n ∈ tbN.colNames ++ tbO.colNames, n ≠ "") ∧ tbO.pk = tbN.pk ∧
       (∀ dc : List String, (∀ c ∈ dc, c ∉ tbN.colNames) →
         ∀ s ∈ tbN.idxs, ∀ o ∈ tbO.idxs, o.name = s.name → o ≠ s → ∃ c ∈ o.cols, c ∉ dc)) :
     ∃ up, modelUp g old new = .ok up ∧ c01 g.ignoreOrder dbO dbN up false = .ok () :=
-  schema_up_any g hg rc old new dbO dbN ho hn hpo hpn heo hen hdef hnofk hncm hboth
+  schema_up_any g hg rc old new dbO dbN ho hn hpo hpn heo hen hdef hnofk hboth
 
 -- non-vacuity under the option: the pair `exOldW` / `exNewW`
 example : ∃ up dbO dbN, modelUp { ignoreOrder := true } exOldW exNewW = .ok up ∧ execAll true [] exOldW = some dbO ∧
     execAll true [] exNewW = some dbN ∧ (c01 true dbO dbN up false).toOption = some () ∧
     (execAll false dbO up).map (fun db' => db'.equiv dbN) = some false :=
+  ⟨_, _, _, by rfl, by rfl, by rfl, by decide, by decide⟩
+
+-- non-vacuity with COMMENT options: a column whose comment alone changes (texts with single quotes) is modified, and the
+-- predicate holds of the printed migration
+def exOldCm : List Stmt :=
+  [.createTable "t" 0 [{ name := "a", typ := "int(11)", opts := [{ kind := .comment, text := "it's" }] },
+                       { name := "b", typ := "text", opts := [{ kind := .comment, text := "same" }] }] []]
+def exNewCm : List Stmt :=
+  [.createTable "t" 0 [{ name := "a", typ := "int(11)", opts := [{ kind := .comment, text := "it''s" }] },
+                       { name := "b", typ := "text", opts := [{ kind := .comment, text := "same" }] }] []]
+example : ∃ up dbO dbN, modelUp {} exOldCm exNewCm = .ok up ∧ execAll true [] exOldCm = some dbO ∧ execAll true [] exNewCm = some dbN ∧
+    up.length = 1 ∧ (c01 false dbO dbN up false).toOption = some () :=
   ⟨_, _, _, by rfl, by rfl, by rfl, by decide, by decide⟩
 
 end Sqlize.C01
